@@ -7,12 +7,12 @@ import (
 	"verifharness/internal/hx"
 )
 
-var allBoards = []string{"WhoAmI", "EditExp", "Note", "Record", "ALLPOST", "Security"}
+var allBoards = []string{"WhoAmI", "EditExp", "Note", "Record", "ALLPOST", "Security", pctBoard}
 var allUsers = []string{"SYSOP", "CodingMan", "Kahou2", "test0", "pichu"}
 
 // bytes the bodies and titles are drawn from
-var bodyAlphabet = []byte("abcXYZ09 ~!@#\t\x00\x1b\x1b[[;;,0123456789ABCDfjHJRumsK? " + "\x80\x81\xa1\xa4\xbd\xa7\x69\xfe\x40\x7e")
-var titleAlphabet = []byte("abcdefgXYZ0189 []:!\x00\x1b[H\x80\xa4\xbd\xa7\x69\xfe\x40 Re")
+var bodyAlphabet = []byte("abcXYZ09 ~!@#%%sdvxq*\t\x00\x1b\x1b[[;;,0123456789ABCDfjHJRumsK? " + "\x80\x81\xa1\xa4\xbd\xa7\x69\xfe\x40\x7e")
+var titleAlphabet = []byte("abcdefgXYZ0189 []:!%%sdv\x00\x1b[H\x80\xa4\xbd\xa7\x69\xfe\x40 Re")
 
 func newReq(u, b string) *request {
 	us, bd := users[u], boards[b]
@@ -176,6 +176,93 @@ func generatePosts() {
 			}
 			post(q)
 		}
+	}
+
+	// ---- cold totals: records on disk, nothing counted yet (as after ReloadBCache) ----------------------------------
+	for k := 1; k <= 3; k++ {
+		two := append([]byte{}, fixtureDir["WhoAmI"]...)
+		for len(two) < k*recSz {
+			two = append(two, fixtureDir["WhoAmI"][:recSz]...)
+		}
+		coldBoards["ALLPOST"] = two[:k*recSz]
+		if k == 3 {
+			coldBoards["WhoAmI"] = fixtureDir["WhoAmI"]
+		}
+		reset()
+		for i, ub := range [][2]string{{"CodingMan", "WhoAmI"}, {"test0", "EditExp"}, {"SYSOP", "Record"}, {"CodingMan", "WhoAmI"}} {
+			q := newReq(ub[0], ub[1])
+			q.title = []byte("after a reload " + string(rune('a'+i)))
+			q.lines = [][]byte{[]byte("x")}
+			post(q)
+		}
+	}
+	delete(coldBoards, "ALLPOST")
+	delete(coldBoards, "WhoAmI")
+
+	// ---- printf metacharacters in every rendered text field -------------------------------------------------------
+	pctTexts := [][]byte{[]byte("100% pure"), []byte("%s%d"), []byte("50%"), []byte("%"), []byte("%%"), []byte("%!s(MISSING)"),
+		[]byte("%v%x%q%[1]s%*d"), []byte("%s %s %s %s %s %s"), []byte("\xa4\xbd%s\xa7\x69%"), []byte("%c%U%t%p%08.3f"), []byte("%[9]s%n")}
+	for i, nick := range pctTexts {
+		for _, u := range []string{"CodingMan", "test0", "SYSOP", "Kahou2"} {
+			nickOverride[u] = nick
+		}
+		reset()
+		for k, ub := range [][2]string{{"CodingMan", "WhoAmI"}, {"test0", "EditExp"}, {"SYSOP", pctBoard}, {"Kahou2", pctBoard}, {"CodingMan", "Note"}} {
+			q := newReq(ub[0], ub[1])
+			q.title = append([]byte{}, pctTexts[(i+k)%len(pctTexts)]...)
+			if k%2 == 1 {
+				q.class = []byte("%d%s")
+			}
+			q.lines = [][]byte{pctTexts[(i+k+1)%len(pctTexts)], []byte("plain"), pctTexts[(i+k+2)%len(pctTexts)]}
+			if k >= 2 {
+				q.ip = []byte("%s.%d.%v.1")
+				q.from = []byte(" (%s%d)")
+			}
+			post(q)
+		}
+		// the same through a kept session record
+		id := make([]byte, ptttype.IDLEN+1)
+		copy(id, "CodingMan")
+		do("load " + hx.Hex([]byte("P")) + " " + hx.Hex(id))
+		q := newReq("CodingMan", pctBoard)
+		q.title = pctTexts[i]
+		q.lines = [][]byte{[]byte("%s")}
+		do("postas " + hx.Hex([]byte("P")) + " " + strings.Join(strings.Fields(q.line())[1:3], " ") + " " + strings.Join(strings.Fields(q.line())[4:], " "))
+	}
+	for u := range nickOverride {
+		delete(nickOverride, u)
+	}
+	// random nicknames over a printf-heavy alphabet for the histories that follow
+	pctAlpha := []byte("%%%sdvxq[1]*.0 ab\xa4\xbd")
+	randNicks := func() {
+		for _, u := range []string{"CodingMan", "test0", "SYSOP", "Kahou2"} {
+			if r.Intn(2) == 0 {
+				nickOverride[u] = r.Bytes(r.Intn(20), pctAlpha)
+			} else {
+				delete(nickOverride, u)
+			}
+		}
+	}
+	nPct := 8
+	if run.Thorough() {
+		nPct = 200
+	}
+	for h := 0; h < nPct; h++ {
+		randNicks()
+		reset()
+		for s := 0; s < 2+r.Intn(6); s++ {
+			p := append(pairs, [2]string{"CodingMan", pctBoard}, [2]string{"SYSOP", pctBoard})[r.Intn(len(pairs)+2)]
+			q := newReq(p[0], p[1])
+			q.title = r.Bytes(r.Intn(40), pctAlpha)
+			q.lines = [][]byte{r.Bytes(r.Intn(30), pctAlpha), r.Bytes(r.Intn(30), bodyAlphabet)}
+			if r.Intn(3) == 0 {
+				q.class = r.Bytes(4, pctAlpha)
+			}
+			post(q)
+		}
+	}
+	for u := range nickOverride {
+		delete(nickOverride, u)
 	}
 
 	// ---- site configuration: every setting of the five switches -------------------------------------------------
